@@ -219,9 +219,8 @@ def expect (c : Char) (s : List Char) : Option (List Char) :=
   | x :: r => if x == c then some r else none
   | [] => none
 
-/-- `time.Parse(time.RFC3339, text)`: Unix seconds and nanoseconds; `none` = error -/
-def parseRFC3339 (s : List Char) : Option (Int × Nat) := do
-  -- year: four characters, all digits
+/-- year (four digits), month and day (two digits each) -/
+def parseDate (s : List Char) : Option ((Int × Nat × Nat) × List Char) := do
   let (yc, s) ← (if s.length ≥ 4 then some (s.take 4, s.drop 4) else none)
   if !yc.all isDigit then none
   let year : Int := digitsVal yc
@@ -230,7 +229,10 @@ def parseRFC3339 (s : List Char) : Option (Int × Nat) := do
   if month = 0 ∨ month > 12 then none
   let s ← expect '-' s
   let (day, s) ← getnum s true
-  let s ← expect 'T' s
+  pure ((year, month, day), s)
+
+/-- hh:mm:ss; the hour may be one digit -/
+def parseClock (s : List Char) : Option ((Nat × Nat × Nat) × List Char) := do
   let (hour, s) ← getnum s false
   if hour ≥ 24 then none
   let s ← expect ':' s
@@ -239,30 +241,42 @@ def parseRFC3339 (s : List Char) : Option (Int × Nat) := do
   let s ← expect ':' s
   let (second, s) ← getnum s true
   if second ≥ 60 then none
-  -- optional fractional second although the layout has none
-  let (nsec, s) : Nat × List Char :=
-    match s with
-    | c :: d :: r =>
-      if (c == '.' || c == ',') && isDigit d then
-        let ds := (d :: r).takeWhile isDigit
-        let used := ds.take 9
-        (digitsVal used * 10 ^ (9 - used.length), (d :: r).dropWhile isDigit)
-      else (0, s)
-    | _ => (0, s)
-  -- zone: Z or ±hh:mm
-  let (off, s) : Int × List Char ← (match s with
-    | 'Z' :: r => some (0, r)
-    | sg :: h1 :: h2 :: ':' :: m1 :: m2 :: r =>
-      if !(sg == '+' || sg == '-') then none
-      else if !(isDigit h1 && isDigit h2 && isDigit m1 && isDigit m2) then none
+  pure ((hour, minute, second), s)
+
+/-- optional fractional second although the layout has none -/
+def parseFrac (s : List Char) : Nat × List Char :=
+  match s with
+  | c :: d :: r =>
+    if (c == '.' || c == ',') && isDigit d then
+      let ds := (d :: r).takeWhile isDigit
+      let used := ds.take 9
+      (digitsVal used * 10 ^ (9 - used.length), (d :: r).dropWhile isDigit)
+    else (0, s)
+  | _ => (0, s)
+
+/-- zone: Z or ±hh:mm, as seconds east of UTC -/
+def parseZone (s : List Char) : Option (Int × List Char) :=
+  match s with
+  | 'Z' :: r => some (0, r)
+  | sg :: h1 :: h2 :: ':' :: m1 :: m2 :: r =>
+    if !(sg == '+' || sg == '-') then none
+    else if !(isDigit h1 && isDigit h2 && isDigit m1 && isDigit m2) then none
+    else
+      let hr := dval h1 * 10 + dval h2
+      let mm := dval m1 * 10 + dval m2
+      if hr > 24 ∨ mm > 60 then none
       else
-        let hr := dval h1 * 10 + dval h2
-        let mm := dval m1 * 10 + dval m2
-        if hr > 24 ∨ mm > 60 then none
-        else
-          let o : Int := ((hr * 60 + mm) * 60 : Nat)
-          some (if sg == '-' then -o else o, r)
-    | _ => none)
+        let o : Int := ((hr * 60 + mm) * 60 : Nat)
+        some (if sg == '-' then -o else o, r)
+  | _ => none
+
+/-- `time.Parse(time.RFC3339, text)`: Unix seconds and nanoseconds; `none` = error -/
+def parseRFC3339 (s : List Char) : Option (Int × Nat) := do
+  let ((year, month, day), s) ← parseDate s
+  let s ← expect 'T' s
+  let ((hour, minute, second), s) ← parseClock s
+  let (nsec, s) := parseFrac s
+  let (off, s) ← parseZone s
   if !s.isEmpty then none
   if day < 1 ∨ (day : Int) > daysIn year month then none
   pure (daysFromCivil year month day * 86400 + hour * 3600 + minute * 60 + second - off, nsec)
